@@ -712,17 +712,18 @@ theorem run_config_without_keys (env : String → Bool × Bool) (cfg : Option Js
     simp [parseRunConfig, runConfigKey, hg]
 
 /-- a per-run value that is present and does not deserialize fails the whole call, before anything is run:
-`parallelism` that is not a non-negative integer, an unknown persistence policy, an output policy of the
-wrong shape -/
+`parallelism` that is not a non-negative integer, an unknown persistence policy, an output policy that is none
+of serde's accepted shapes (`decodePolicy`: object or sequence, tag by name; the `Combined` policy is not
+modelled, hence `isCombined v = false`) -/
 theorem invalid_run_config_fails_call {α : Type} (W : WOps α) (env : String → Bool × Bool) (app : App)
     (c : Json) (respond : Json → Json) (batch : List Json)
     (h : (∃ v, c.get? "parallelism" = some v ∧ decodeUsize v = none) ∨
          (∃ v, c.get? "response_persistence_policy" = some v ∧ decodePersist v = none) ∨
-         (∃ v, c.get? "response_output_policy" = some v ∧ decodePolicy env v = none)) :
+         (∃ v, c.get? "response_output_policy" = some v ∧ decodePolicy env v = none ∧ isCombined v = false)) :
     callO W env app (some c) respond batch = .ok (.error .runConfig) := by
   have hp : parseRunConfig env (some c) = none := by
     unfold parseRunConfig
-    rcases h with ⟨v, h1, h2⟩ | ⟨v, h1, h2⟩ | ⟨v, h1, h2⟩
+    rcases h with ⟨v, h1, h2⟩ | ⟨v, h1, h2⟩ | ⟨v, h1, h2, _⟩
     · simp [runConfigKey, h1, h2]
     · cases hq : runConfigKey (some c) "parallelism" decodeUsize with
       | none => rfl
@@ -852,23 +853,59 @@ theorem call_multiset {α : Type} (W : WOps α) (env : String → Bool × Bool) 
 -- non-vacuity: per-run values that are accepted and refused
 example : decodeUsize (.str "3") = none ∧ decodeUsize .null = none ∧ decodeUsize (.bool true) = none :=
   ⟨rfl, rfl, rfl⟩
+-- serde's shapes of the output policy: object, sequence, nested index; the tag of the policy itself by name only
+example (env : String → Bool × Bool) :
+    (decodePolicy env (.arr [.str "none"])).isSome = true ∧
+    (decodePolicy env (.arr [.str "none", .null])).isSome = false ∧
+    (decodePolicy env (.arr [.str "file", .str "f", .arr [.str "json", .bool true], .null])).isSome = true ∧
+    (∀ l b, (Json.num l b).asU64? = some 0 →
+      (decodePolicy env (.obj [("type", .str "file"), ("filename", .str "f"),
+        ("format", .obj [("type", .num l b), ("newline_delimited", .bool true)])])).isSome = true) ∧
+    (decodePolicy env (.obj [("type", .num "0" 0)])).isSome = false ∧
+    (decodePolicy env (.str "none")).isSome = false := by
+  refine ⟨by rfl, by rfl, by rfl, ?_, by rfl, by rfl⟩
+  intro l b h0
+  simp [decodePolicy, tagged, tagName, Tagged.arity, Tagged.req, Tagged.opt, Json.lookup, isJsonFormat, h0,
+    decodeOptI64]
 example : decodePersist (.str "discard_response_from_memory") = some false ∧
     decodePersist (.obj [("persist_response_in_memory", .null)]) = some true ∧
     decodePersist (.str "Persist") = none := by decide
 
 /-! ## the load-balancer builder, the build stages -/
 
-/-- `LoadBalancerBuilder::build`: without `weight_heuristic` a missing-field error; a heuristic that is not the
-haversine tag or a well-formed custom weight type a deserialization error; a numeric custom weight without
-`column_name` reads the field `query_weight_estimate` -/
+/-- `LoadBalancerBuilder::build`: without `weight_heuristic` a missing-field error; a heuristic that is neither an
+object nor a sequence (serde's two shapes of an internally tagged enum) a deserialization error; the sequence
+shape `["haversine"]` builds the haversine heuristic and takes no further element; a numeric custom weight may
+be given as `{"type":"numeric",…}`, positionally as `["numeric", "w"]`, or — nested values are buffered — with
+the variant's index `{"type":0,"column_name":"w"}`; without `column_name` it reads `query_weight_estimate` -/
 theorem load_balancer_builder_spec (fmt : Nat → String) :
     (∀ params, params.get? "weight_heuristic" = none → buildLoadBalancer fmt params = .error .missingField) ∧
-    (∀ params v, params.get? "weight_heuristic" = some v → v.isObject = false →
+    (∀ params v, params.get? "weight_heuristic" = some v → v.isObject = false → v.isArray = false →
       buildLoadBalancer fmt params = .error .serde) ∧
-    decodeCustomWeight fmt (.obj [("type", .str "numeric")]) = some (.lbNumeric weightKey fmt) := by
-  refine ⟨?_, ?_, rfl⟩
+    (∀ params, params.get? "weight_heuristic" = some (.arr [.str "haversine"]) →
+      ∃ b, buildLoadBalancer fmt params = .ok b) ∧
+    (∀ params x, params.get? "weight_heuristic" = some (.arr [.str "haversine", x]) →
+      buildLoadBalancer fmt params = .error .serde) ∧
+    decodeCustomWeight fmt (.obj [("type", .str "numeric")]) = some (.lbNumeric weightKey fmt) ∧
+    decodeCustomWeight fmt (.arr [.str "numeric", .str "w"]) = some (.lbNumeric "w" fmt) ∧
+    (∀ l b, (Json.num l b).asU64? = some 0 →
+      decodeCustomWeight fmt (.obj [("type", .num l b), ("column_name", .str "w")])
+        = some (.lbNumeric "w" fmt)) ∧
+    decodeCustomWeight fmt (.arr [.str "numeric"]) = none := by
+  refine ⟨?_, ?_, ?_, ?_, by rfl, by rfl, ?_, by rfl⟩
+  rotate_left 4
+  · intro l b h0
+    simp [decodeCustomWeight, tagged, tagName, Tagged.arity, Tagged.opt, Json.lookup, h0, decodeOptString]
   · intro params h; simp [buildLoadBalancer, h]
-  · intro params v h hv; cases v <;> simp_all [buildLoadBalancer, Json.isObject]
+  · intro params v h ho ha
+    cases v <;> simp_all [buildLoadBalancer, tagged, Json.isObject, Json.isArray]
+  · intro params h
+    refine ⟨.haversine, ?_⟩
+    simp only [buildLoadBalancer, h]
+    rfl
+  · intro params x h
+    simp only [buildLoadBalancer, h]
+    rfl
 
 /-- `CompassApp::try_from`: the error reported is the one of the first stage — in the order configuration,
 algorithm, state, traversal, access, cost, frontier, termination, graph, input plugins, output plugins,
